@@ -40,7 +40,9 @@ func (sc *SyncClock) LocalTime() time.Time {
 
 // Decode .
 func (sc *SyncClock) Decode(data []byte) (ok bool) {
-	if data[1] == 200 {
+	// a sender report carries NTP and RTP timestamps in bytes 8..19 (RFC 3550 6.4.1);
+	// anything shorter is not one
+	if len(data) >= 20 && data[1] == 200 {
 		msw := binary.BigEndian.Uint32(data[8:])
 		lsw := binary.BigEndian.Uint32(data[12:])
 		sc.RTPTime = binary.BigEndian.Uint32(data[16:])
